@@ -119,6 +119,13 @@ def getitem(it, obj, idx):
         if isinstance(c, ListCell):
             i = _const_int(idx)
             if i is None:
+                if ctx.spec_mode:
+                    # total: If-chain over the (boxed) items
+                    ie = as_int(idx)
+                    acc = ctx.fresh('unspec', Val)
+                    for k in range(len(c.items) - 1, -1, -1):
+                        acc = z3.If(ie == k, box(c.items[k]), acc)
+                    return VBox(acc)
                 raise Unsupported('symbolic index into concrete list')
             try:
                 return c.items[i]
@@ -643,6 +650,9 @@ def concrete_attr(it, py, name):
     if isinstance(py, re.Pattern) and name in ('match', 'sub', 'fullmatch'):
         return VFunc(lambda it, a, k: pattern_call(it, py, name, a, k),
                      'Pattern.' + name)
+    if isinstance(py, tuple) and py and py[0] == 'typeof' and \
+            name == '__name__':
+        return VStr(it.ctx.fresh_str('typename'), False)
     if isinstance(py, dict) and name in ('get', 'keys', 'items', 'copy'):
         return VFunc(lambda it, a, k: concrete_dict_method(
             it, py, name, a, k), 'dict.' + name)
@@ -693,7 +703,16 @@ def call_concrete(it, py, args, kwargs):
     if py is range:
         vals = [_const_int(a) for a in args]
         if any(v is None for v in vals):
-            raise Unsupported('symbolic range')
+            if len(args) != 1:
+                raise Unsupported('symbolic range with start/step')
+            # exhaustive case split on a small symbolic count
+            n = as_int(args[0])
+            K = 4
+            conds = [n <= 0] + [n == k for k in range(1, K + 1)] + [n > K]
+            d = ctx.choose(len(conds), conds)
+            if d == len(conds) - 1:
+                raise Unsupported('range(n) with n > %d' % K)
+            return VConc(range(d))
         return VConc(range(*vals))
     if py is enumerate:
         start = kwargs.get('start', args[1] if len(args) > 1 else VInt(0))
@@ -758,8 +777,27 @@ def builtin_isinstance(it, v, cls):
     ctx = it.ctx
     classes = [c.py for c in cls.items] if isinstance(cls, VTuple) \
         else [cls.py]
+    if isinstance(v, VBox) and ctx.spec_mode:
+        e = v.e
+        tests = []
+        for c in classes:
+            if c is int:
+                tests += [Val.is_IntV(e), Val.is_BoolV(e)]
+            elif c is bool:
+                tests.append(Val.is_BoolV(e))
+            elif c is str:
+                tests.append(Val.is_StrV(e))
+            elif c is bytes:
+                tests.append(Val.is_BytesV(e))
+            elif c is type(None):
+                tests.append(Val.is_NoneV(e))
+        return VBool(z3.Or(tests + [z3.BoolVal(False)]))
     if isinstance(v, VBox):
         v = unbox_choose(ctx, v)
+    if isinstance(v, VJson):
+        if dict in classes:
+            return VBool(F_JsonIsDict(v.h))
+        raise Unsupported('isinstance of a JSON value')
 
     def one(c):
         if c is bytes:
@@ -888,6 +926,7 @@ def builtin_dict(it, args, kwargs):
 F_JsonValid = z3.Function('JsonValid', z3.StringSort(), z3.BoolSort())
 F_JsonLoads = z3.Function('JsonLoads', z3.StringSort(), z3.IntSort())
 F_JsonDumps = z3.Function('JsonDumps', z3.IntSort(), z3.StringSort())
+F_JsonIsDict = z3.Function('JsonIsDict', z3.IntSort(), z3.BoolSort())
 
 
 class VJson(V):
